@@ -37,6 +37,7 @@ from src.core.base import BaseLintContext, BaseLintRule
 from src.core.linter_utils import should_process_file
 from src.core.types import Violation
 from src.linter_config.ignore import IgnoreDirectiveParser
+from src.linter_config.pattern_utils import matches_pattern
 
 from .config import DRYConfig
 from .config_loader import ConfigLoader
@@ -206,7 +207,10 @@ class DRYRule(BaseLintRule):  # pylint: disable=too-many-instance-attributes
         """
         # Try to get from metadata (orchestrator sets this)
         if hasattr(context, "metadata") and isinstance(context.metadata, dict):
-            project_root = context.metadata.get("project_root")
+            # The orchestrator passes the root as "_project_root"
+            project_root = context.metadata.get("project_root") or context.metadata.get(
+                "_project_root"
+            )
             if project_root:
                 return Path(project_root)
 
@@ -215,6 +219,20 @@ class DRYRule(BaseLintRule):  # pylint: disable=too-many-instance-attributes
             return Path(context.file_path).parent
 
         return None
+
+    def _matches_ignore_glob(self, file_path: str) -> bool:
+        """Check the section's ignore list as glob patterns on the path inside the project.
+
+        The violation generator matches the entries as substrings only; the documented glob
+        forms ("*.py", "generated/**", "**/legacy.py") are matched here.
+        """
+        if not self._config or not self._config.ignore_patterns or self._project_root is None:
+            return False
+        try:
+            relative = Path(file_path).resolve().relative_to(self._project_root.resolve())
+        except (ValueError, OSError):
+            return False
+        return any(matches_pattern(str(relative), p) for p in self._config.ignore_patterns)
 
     def finalize(self) -> list[Violation]:
         """Generate violations after all files processed."""
@@ -232,6 +250,7 @@ class DRYRule(BaseLintRule):  # pylint: disable=too-many-instance-attributes
         violations = self._helpers.violation_generator.generate_violations(
             self._storage, self.rule_id, self._config, ignore_ctx
         )
+        violations = [v for v in violations if not self._matches_ignore_glob(v.file_path)]
         if self._config.detect_duplicate_constants and self._constants:
             constant_violations = _generate_constant_violations(
                 self._constants, self._config, self._helpers, self.rule_id
